@@ -1,7 +1,9 @@
-(* C01 — Shaping is total and accounts for every input rune (partial: glue, buffer core (all modelled operations), recursion budget).
+(* C01 — Shaping is total and accounts for every input rune (partial: glue, buffer core (all modelled operations), the
+   cluster bookkeeping of the pre-GSUB pipeline of ot_shaper.go, recursion budget).
    Property theorems only. *)
 From TV Require Import Model.ShapeGlue Spec.ShapeGlue Proofs.ShapeGlue.
-From TV Require Import Model.Buffer Spec.Buffer Proofs.Buffer Proofs.BufferOps Model.Recurse Proofs.Recurse.
+From TV Require Import Model.Buffer Spec.Buffer Proofs.Buffer Proofs.BufferOps Proofs.BufferNewOps Proofs.BufferAll Model.Recurse Proofs.Recurse.
+From TV Require Import Model.Engine Proofs.Engine.
 
 (* --- part 1: rune accounting of shaping.Shape / countClusters --- *)
 
@@ -58,37 +60,73 @@ Proof. vm_compute. repeat split. Qed.
 
 (* --- part 2: cluster discipline of harfbuzz.Buffer (levels other than Characters) --- *)
 
-(* EVERY modelled operation of harfbuzz/buffer.go (the 26 constructors of Model/Buffer.v `op`: nextGlyph, nextGlyphs,
+(* EVERY modelled operation of harfbuzz/buffer.go (the 30 constructors of Model/Buffer.v `op`: nextGlyph, nextGlyphs,
    skipGlyph, copyGlyph, replaceGlyphIndex, replaceGlyphs (= replaceGlyph, outputRune, outputGlyphIndex), deleteGlyph,
    deleteGlyphsInplace, mergeClusters, mergeOutClusters, moveTo, shiftForward, swapBuffers, clearOutput, removeOutput,
    clearPositions, reverseRange, Reverse, reverseClusters, setGlyphFlags, unsafeToBreak, unsafeToConcat,
-   safeToInsertTatweel, unsafeToBreakFromOutbuffer, unsafeToConcatFromOutbuffer, propagateFlags), applied to ANY
-   well-formed buffer under the precondition upstream asserts (Spec/Buffer.v `pre`), returns normally and preserves WF:
-   cursor inside the buffer, clusters of  out ++ unread input  monotone (in one of the two directions: the reversals flip
-   it) and inside [lo, hi). *)
+   safeToInsertTatweel, unsafeToBreakFromOutbuffer, unsafeToConcatFromOutbuffer, propagateFlags, and since the extension
+   round AddRune, AddRunes, sort (the insertion sort of the normalizer with its cluster merging; comparison =
+   compareCombiningClass) and reverseGraphemes = reverseGroups on grapheme continuations with and without cluster merging),
+   applied to ANY well-formed buffer under the precondition upstream asserts (Spec/Buffer.v `pre`), with the cluster values
+   an AddRune / AddRunes brings in lying in [lo, hi) (`op_rng`, trivially true of all other operations), returns normally
+   and preserves WF: cursor inside the buffer, clusters of  out ++ unread input  monotone (in one of the two directions: the
+   reversals flip it) and inside [lo, hi). *)
 Theorem buffer_op_preserves_wf : forall lo hi o b,
-  (level b =? 2) = false -> WF lo hi b = true -> pre o b = true ->
+  (level b =? 2) = false -> WF lo hi b = true -> pre o b = true -> op_rng lo hi o = true ->
   exists b', run_op o b = Ok b' /\ WF lo hi b' = true /\ (level b' =? 2) = false.
 Proof. exact op_step. Qed.
 Print Assumptions buffer_op_preserves_wf.
 
 (* fold_left lift: EVERY sequence of operations, of any length, whose preconditions hold along the run *)
 Theorem buffer_ops_preserve_wf : forall lo hi os b,
-  (level b =? 2) = false -> WF lo hi b = true -> pres_hold os b ->
+  (level b =? 2) = false -> WF lo hi b = true -> pres_hold os b -> ops_rng lo hi os ->
   exists b', run_ops os b = Ok b' /\ WF lo hi b' = true.
 Proof. exact buffer_ops_preserve_wf_lemma. Qed.
 Print Assumptions buffer_ops_preserve_wf.
 
 (* no Panic, no OutOfFuel: for one operation and for every operation sequence *)
 Theorem buffer_ops_no_panic : forall lo hi o b,
-  (level b =? 2) = false -> WF lo hi b = true -> pre o b = true -> total (run_op o b).
+  (level b =? 2) = false -> WF lo hi b = true -> pre o b = true -> op_rng lo hi o = true -> total (run_op o b).
 Proof. exact buffer_ops_no_panic_lemma. Qed.
 Print Assumptions buffer_ops_no_panic.
 
 Theorem buffer_run_no_panic : forall lo hi os b,
-  (level b =? 2) = false -> WF lo hi b = true -> pres_hold os b -> total (run_ops os b).
+  (level b =? 2) = false -> WF lo hi b = true -> pres_hold os b -> ops_rng lo hi os -> total (run_ops os b).
 Proof. exact buffer_run_no_panic_lemma. Qed.
 Print Assumptions buffer_run_no_panic.
+
+(* sort(s, e, compar) for ANY comparison function, on any well-formed buffer without output: it returns normally, keeps
+   the length and WF (every glyph it moves over is first merged into one cluster with the moved glyph) *)
+Theorem sort_preserves_wf : forall lo hi (cmp : glyph -> glyph -> Z) b s e,
+  (level b =? 2) = false -> WF lo hi b = true -> have_out b = false -> 0 <= s -> e <= zlen (info b) ->
+  exists b', sort_range cmp b s e = Ok b' /\ WF lo hi b' = true /\ have_out b' = false /\ level b' = level b
+    /\ zlen (info b') = zlen (info b).
+Proof. exact sort_range_stable. Qed.
+Print Assumptions sort_preserves_wf.
+
+(* reverseGroups(groupFunc, mergeClusters = true) for ANY grouping function *)
+Theorem reverse_groups_merging_preserves_wf : forall lo hi (grp : glyph -> glyph -> bool) b,
+  (level b =? 2) = false -> WF lo hi b = true -> have_out b = false ->
+  exists b', reverse_groups grp true b = Ok b' /\ WF lo hi b' = true /\ level b' = level b.
+Proof. exact reverse_groups_merge_wf. Qed.
+Print Assumptions reverse_groups_merging_preserves_wf.
+
+(* non-vacuity: the client fills an empty buffer with AddRunes (item [2, 6) of a 7-rune text: base, two marks out of
+   canonical order with ccc 230 and 220, base), the marks are sorted (their clusters merge), and the graphemes are reversed *)
+Example new_ops_example :
+  let e := mkB [] [] 0 false 0 0 0 false false false in
+  let text := [97; 98; 99; 769; 803; 100; 101] in
+  exists b1, run_ops [OAddRunes text 2 4 8] e = Ok b1 /\ cls (info b1) = [2; 3; 4; 5] /\ WF 2 6 b1 = true
+   /\ pre (OAddRunes text 2 4 8) e = true /\ op_rng 2 6 (OAddRunes text 2 4 8) = true
+   /\ let b2 := with_info b1 (map (fun g => set_up g (if cp g =? 769 then 230 * 256 + 128 + 12 else if cp g =? 803 then 220 * 256 + 128 + 12 else 5)) (info b1)) in
+      pres_hold [OSort 1 3; ORevGraphemes true] b2
+      /\ exists b3, run_ops [OSort 1 3; ORevGraphemes true] b2 = Ok b3 /\ map cp (info b3) = [100; 99; 803; 769] /\ cls (info b3) = [5; 2; 2; 2]
+           /\ WF 2 6 b3 = true.
+Proof.
+  cbv zeta. eexists. split; [vm_compute; reflexivity|]. split; [reflexivity|]. split; [reflexivity|]. split; [reflexivity|].
+  split; [reflexivity|]. split; [apply pres_ok_sound; vm_compute; reflexivity|].
+  eexists. split; [vm_compute; reflexivity|]. repeat split.
+Qed.
 
 (* mergeClusters(s, e) on any buffer (any contents, monotone or not): it returns normally and all glyphs of a range
    [s', e') that contains [s, e) carry the smallest cluster value of [s, e); nothing outside [s', e') changes in Info *)
@@ -141,6 +179,88 @@ Example wf_example_all_ops :
 Proof.
   cbv zeta. split; [reflexivity|]. split; [apply pres_ok_sound; vm_compute; reflexivity|].
   eexists. split; [vm_compute; reflexivity|]. split; reflexivity.
+Qed.
+
+(* --- part 4: the cluster bookkeeping glue of shaperOpentype.shape (Model/Engine.v), for EVERY buffer and EVERY Unicode
+   data / cmap / shaper (the Section variables of the model are universally quantified) --- *)
+
+(* EWF lo hi e: the buffer of e satisfies WF lo hi, its cluster level is not Characters, no output is in progress *)
+
+(* setUnicodeProps changes no cluster value, no length, no cursor (it only writes GlyphInfo.unicode and the scratch flags) *)
+Theorem set_unicode_props_keeps_clusters : forall ugc udi umcc uextpict e,
+  let e' := set_unicode_props ugc udi umcc uextpict e in
+  cls (info (eb e')) = cls (info (eb e)) /\ out (eb e') = out (eb e) /\ idx (eb e') = idx (eb e)
+  /\ have_out (eb e') = have_out (eb e) /\ level (eb e') = level (eb e) /\ dir e' = dir e.
+Proof. exact set_unicode_props_spec. Qed.
+Print Assumptions set_unicode_props_keeps_clusters.
+
+(* insertDottedCircle: returns normally; the circle takes the cluster of the mark it precedes *)
+Theorem insert_dotted_circle_preserves_wf : forall ugc udi umcc nominal lo hi e, EWF lo hi e -> idx (eb e) = 0 ->
+  exists e', insert_dotted_circle ugc udi umcc nominal e = Ok e' /\ EWF lo hi e' /\ idx (eb e') = 0 /\ dir e' = dir e
+    /\ level (eb e') = level (eb e).
+Proof. exact insert_dotted_circle_wf. Qed.
+Print Assumptions insert_dotted_circle_preserves_wf.
+
+(* formClusters (grapheme merging at MonotoneGraphemes, unsafe-to-break flagging otherwise): returns normally (no
+   OutOfFuel: the grapheme iteration ends), preserves WF, the cursor and the direction *)
+Theorem form_clusters_preserves_wf : forall lo hi e, EWF lo hi e ->
+  exists e', form_clusters e = Ok e' /\ EWF lo hi e' /\ idx (eb e') = idx (eb e) /\ dir e' = dir e /\ level (eb e') = level (eb e).
+Proof. exact form_clusters_wf. Qed.
+Print Assumptions form_clusters_preserves_wf.
+
+(* ensureNativeDirection (reverseGraphemes, with cluster merging at MonotoneCharacters), for every script direction and
+   buffer direction: at MonotoneCharacters unconditionally; otherwise when every continuation glyph carries the cluster of
+   the glyph before it *)
+Theorem ensure_native_direction_preserves_wf : forall lo hi horiz e, EWF lo hi e ->
+  (level (eb e) =? 1) || groups_uniform (info (eb e)) = true ->
+  exists e', ensure_native_direction horiz e = Ok e' /\ EWF lo hi e' /\ level (eb e') = level (eb e) /\ idx (eb e') = idx (eb e).
+Proof. exact ensure_native_direction_wf. Qed.
+Print Assumptions ensure_native_direction_preserves_wf.
+
+(* ensureMonotoneClusters (the safety net after substitution) on a well-formed buffer: returns normally, keeps WF and the
+   length (it is a sequence of mergeClusters calls inside the buffer) *)
+Theorem ensure_monotone_clusters_preserves_wf : forall lo hi asc b,
+  (level b =? 2) = false -> WF lo hi b = true -> have_out b = false ->
+  exists b', ensure_monotone_clusters asc b = Ok b' /\ WF lo hi b' = true /\ have_out b' = false /\ level b' = level b
+    /\ zlen (info b') = zlen (info b).
+Proof. exact ensure_monotone_clusters_wf. Qed.
+Print Assumptions ensure_monotone_clusters_preserves_wf.
+
+(* non-vacuity: on a well-formed buffer nothing is out of order and nothing changes; on [0; 2; 1; 3] (ascending wanted) the two
+   clusters out of order are merged *)
+Example ensure_monotone_clusters_example :
+  let mk := fun l => mkB (map (fun c => mkG c fl0 0 65 1) l) [] 0 false 0 0 0 false false false in
+  WF 0 4 (mk [0; 1; 1; 3]) = true
+  /\ (exists b', ensure_monotone_clusters true (mk [0; 1; 1; 3]) = Ok b' /\ cls (info b') = [0; 1; 1; 3])
+  /\ (exists b', ensure_monotone_clusters true (mk [0; 2; 1; 3]) = Ok b' /\ cls (info b') = [0; 1; 1; 3]).
+Proof. cbv zeta. split; [reflexivity|]. split; eexists; (split; [vm_compute; reflexivity|reflexivity]). Qed.
+
+(* the stages of shape() before normalisation composed: setUnicodeProps; insertDottedCircle; formClusters;
+   ensureNativeDirection, for every text, direction, script direction, flags, font and Unicode data.
+   PARTIAL: full at cluster level MonotoneCharacters; at MonotoneGraphemes under the hypothesis that formClusters leaves
+   every continuation glyph in the cluster of its base (checked by the oracle of c01eng on every case, not proved);
+   otShapeNormalize itself (decompose / recompose rounds) is tied by correspondence and the oracle only, its reorder
+   round is covered by sort_preserves_wf *)
+Theorem pre_normalize_preserves_wf_partial : forall ugc udi umcc uextpict nominal lo hi horiz e, EWF lo hi e -> idx (eb e) = 0 ->
+  (level (eb e) = 1 \/ forall e2 e3, level (eb e2) = level (eb e) -> form_clusters e2 = Ok e3 -> groups_uniform (info (eb e3)) = true) ->
+  exists e', pre_normalize ugc udi umcc uextpict nominal horiz e = Ok e' /\ EWF lo hi e' /\ idx (eb e') = 0 /\ level (eb e') = level (eb e).
+Proof. exact pre_normalize_wf. Qed.
+Print Assumptions pre_normalize_preserves_wf_partial.
+
+(* non-vacuity: "mark, base, mark" added by AddRunes at MonotoneCharacters, Bot set, a font with U+25CC, RTL in a
+   natively LTR script: the dotted circle is inserted with cluster 0 and the graphemes are reversed with their clusters merged *)
+Example pre_normalize_example :
+  let ugc := fun r => if (r =? 769) || (r =? 803) then 12 else 7 in
+  let udi := fun _ : Z => false in
+  let umcc := fun r => if r =? 769 then 230 else if r =? 803 then 220 else 0 in
+  let nominal := fun r : Z => (r, true) in
+  let e0 := mkE (mkB [] [] 0 false 0 0 1 false false false) [] [] false false false false true false false false 5 0 0 in
+  exists e1 e2, e_add_runes e0 [769; 97; 803] 0 3 4 = Ok e1 /\ EWF 0 3 e1 /\ idx (eb e1) = 0 /\ level (eb e1) = 1
+    /\ pre_normalize ugc udi umcc (fun _ => false) nominal 4 e1 = Ok e2
+    /\ map cp (info (eb e2)) = [97; 803; 9676; 769] /\ cls (info (eb e2)) = [1; 1; 0; 0] /\ dir e2 = 4 /\ EWF 0 3 e2.
+Proof.
+  cbv zeta. eexists. eexists. split; [vm_compute; reflexivity|]. split; [repeat split|]. split; [reflexivity|]. split; [reflexivity|].
+  split; [vm_compute; reflexivity|]. repeat split.
 Qed.
 
 (* --- part 3: the recursion budget of the OpenType layout engine (after the F1 fix) --- *)
